@@ -11,4 +11,11 @@ ASSUMPTIONS = ['iteration order of Python sets does not matter: the model is sta
 
 
 def run(ctx):
-    return stackcorr.run(ctx, optional=True, brackets=False, pid="C18")
+    res = stackcorr.run(ctx, optional=True, brackets=False, pid="C18")
+    # an optional field that is quietly left out stays left out when its pipeline becomes one side of an (inner) Join
+    from props import relcorr
+    rj = relcorr.run(dict(ctx, pid=ctx['pid'] + 'join'), ['join'], n_quick=120, n_thorough=1200)
+    res['violations'] = list(res['violations']) + [x for x in rj.get('violations', [])
+                                                   if x['signature'] == 'harness-error' or (x.get('case') or {}).get('optional_left')][:2]
+    res['oracle_checks'] = res.get('oracle_checks', 0) + rj.get('evaluations', 0)
+    return res
